@@ -63,7 +63,8 @@ type recDB struct {
 	// storage fault injection: the Put / Get with this 1-based index fails once (0 = never)
 	failPutAt   int64
 	failGetAt   int64
-	putFaults   int64 // injected so far
+	failPutKey  string // the first Put of this key fails once ("" = never)
+	putFaults   int64  // injected so far
 	getFaults   int64
 	faultedKeys []string
 }
@@ -75,7 +76,7 @@ func (d *recDB) Put(key, val []byte) error {
 	k := append([]byte{}, key...)
 	v := append([]byte{}, val...)
 	n := atomic.AddInt64(&d.puts, 1)
-	if d.failPutAt > 0 && n == d.failPutAt {
+	if (d.failPutAt > 0 && n == d.failPutAt) || (d.failPutKey != "" && string(k) == d.failPutKey && atomic.LoadInt64(&d.putFaults) == 0) {
 		atomic.AddInt64(&d.putFaults, 1)
 		d.mu.Lock()
 		d.faultedKeys = append(d.faultedKeys, "put:"+vk.Hex(k))
@@ -737,6 +738,12 @@ func runSync(r *vk.Run, c *vk.Case, rng *vk.Rand, src, foreign *source, p syncPa
 
 // checkSynced applies the oracle after StartSyncing returned nil
 func checkSynced(r *vk.Run, c *vk.Case, dst *recDB, t *source, p syncParams, baseDetail func() map[string]interface{}) {
+	checkSyncedClass(r, c, dst, t, "", "StartSyncing", baseDetail)
+}
+
+// checkSyncedClass is the completeness oracle for one trie t after the call named api returned nil. class (empty or
+// " class=...") is appended to the witness keys of the phases that have their own witness classes.
+func checkSyncedClass(r *vk.Run, c *vk.Case, dst *recDB, t *source, class string, api string, baseDetail func() map[string]interface{}) {
 	// 1. every reachable node (harness reachability over source bytes) is in DB_dst with the source bytes
 	r.Eval(1)
 	missing, differ := 0, 0
@@ -767,19 +774,19 @@ func checkSynced(r *vk.Run, c *vk.Case, dst *recDB, t *source, p syncParams, bas
 		d["missing_nodes"] = missing
 		d["first_missing"] = firstMissing
 		d["is_root"] = firstMissing == vk.Hex(t.root)
-		key := "missing-node-after-sync"
+		key := "missing-node-after-sync" + class
 		switch {
 		case dst.putFaults > 0:
 			key += " class=after-swallowed-write-fault"
 		case dst.getFaults > 0:
 			key += " class=after-read-fault"
 		}
-		r.Violation(c.Idx, key, fmt.Sprintf("StartSyncing returned nil but %d of %d nodes reachable from root %s are not in the destination DB (first %s)", missing, len(t.nodes), vk.Hex(t.root), firstMissing), d)
+		r.Violation(c.Idx, key, fmt.Sprintf(api+" returned nil but %d of %d nodes reachable from root %s are not in the destination DB (first %s)", missing, len(t.nodes), vk.Hex(t.root), firstMissing), d)
 	}
 	if differ > 0 {
 		d := baseDetail()
 		d["first"] = firstDiffer
-		r.Violation(c.Idx, "node-content-differs-from-source", fmt.Sprintf("%d destination nodes differ from the source bytes: %s", differ, firstDiffer), d)
+		r.Violation(c.Idx, "node-content-differs-from-source"+class, fmt.Sprintf("%d destination nodes differ from the source bytes: %s", differ, firstDiffer), d)
 	}
 
 	// 2. every DB_dst entry is content addressed
@@ -866,7 +873,7 @@ func checkSynced(r *vk.Run, c *vk.Case, dst *recDB, t *source, p syncParams, bas
 	if key != "" {
 		d := baseDetail()
 		d["problem"] = problem
-		r.Violation(c.Idx, key, "after StartSyncing returned nil: "+problem, d)
+		r.Violation(c.Idx, key+class, "after "+api+" returned nil: "+problem, d)
 	}
 }
 
@@ -875,18 +882,46 @@ func checkSynced(r *vk.Run, c *vk.Case, dst *recDB, t *source, p syncParams, bas
 func main() {
 	_ = logger.SetLogLevel("*:NONE")
 	r := vk.Start("C05")
-	r.Rule("a case = one generated source trie (1-400 leaves, keys with shared suffixes so that extension nodes occur, values 1 B - 3 KB, 1 in 10 tries with one value above 256 KB; 1 in 3 tries is a second version on top of a committed previous one) synced by BOTH real syncers, each under its own random hostile schedule (per-hash drops<=3 and delays<=4 rounds with guaranteed later answer, reordering, duplicates, late duplicates, partial batches delivered by 1-3 concurrent goroutines, children pushed ahead of request or the real TrieNodeResolver answering with sub-tries, unrelated valid nodes, non-canonical re-encodings, forged/malformed messages), cacher in {production storageCacherAdapter large / tiny-with-overflow, LRU large / tiny lossy, byte-bounded LRU}, destination DB empty / holding the previous version / a random third of the target nodes, hard cap in {1,3,20,500,10000}; storage faults on the destination DB: in 1 of 4 syncs exactly one Put (random index) returns an error once, in about 1 of 10 exactly one Get does; 1 in 5 cases syncs a second overlapping trie concurrently through the same cacher and DB. A sync is non-trivial if StartSyncing returned nil and at least one hostile event happened; distinct = (syncer, cacher, leaf bucket, hard-cap bucket, prepopulation, pair, resolver, has-extension, set of hostile kinds).")
+	r.Rule("a case = one generated source trie (1-400 leaves, keys with shared suffixes so that extension nodes occur, values 1 B - 3 KB, 1 in 10 tries with one value above 256 KB; 1 in 3 tries is a second version on top of a committed previous one) synced by BOTH real syncers, each under its own random hostile schedule (per-hash drops<=3 and delays<=4 rounds with guaranteed later answer, reordering, duplicates, late duplicates, partial batches delivered by 1-3 concurrent goroutines, children pushed ahead of request or the real TrieNodeResolver answering with sub-tries, unrelated valid nodes, non-canonical re-encodings, forged/malformed messages), cacher in {production storageCacherAdapter large / tiny-with-overflow, LRU large / tiny lossy, byte-bounded LRU}, destination DB empty / holding the previous version / a random third of the target nodes, hard cap in {1,3,20,500,10000}; storage faults on the destination DB: in 1 of 4 syncs exactly one Put (random index) returns an error once, in about 1 of 10 exactly one Get does; 1 in 5 cases syncs a second overlapping trie concurrently through the same cacher and DB. A sync is non-trivial if StartSyncing returned nil and at least one hostile event happened; distinct = (syncer, cacher, leaf bucket, hard-cap bucket, prepopulation, pair, resolver, has-extension, set of hostile kinds). " +
+		"Phase 2 (shared.go): 2-3 tries synced by several StartSyncing calls on ONE syncer instance under the same kind of schedule: overlapping calls on the double-list syncer (documented: concurrent calls are serialized; each further call is issued once the network has been asked for something), back-to-back calls on the first-version syncer; every call that returns nil is judged for ITS root. " +
+		"Phase 3 (accounts.go): a state = main trie of 2-10 marshalled user accounts, 2-5 of them with a data trie (1-24 leaves), synced by the real userAccountsSyncer.SyncAccounts (both syncer versions, throttler 1-16) through the same network; modes: no fault / one Put of a node of one data trie fails once while the other data tries are held back until then / same fault, throttler 1-2, no hold / (first-version syncer, 3 s time-out) one data trie is never served while the others trickle in one node per poll; SyncAccounts == nil is judged for the main trie and every data trie.")
 	r.Assume(
 		"blake2b and the gogo-proto marshalizer are trusted; reachability / child hashes are parsed by the harness from the source DB bytes",
 		"the network is fair: every request for a known hash is answered after at most 3 ignored requests and 4 delay rounds; lossy cachers make progress probabilistic, runs that hit the virtual deadline (scheduler rounds) or the syncer's own timeout are counted per-case inconclusive",
 		"chunked transfer of nodes above 256 KB is a p2p-layer concern and not modelled: such nodes are delivered whole",
 		"an injected destination-DB write fault may end the sync with that error (counted, the case ends there); if StartSyncing returns nil after an injected Put or Get fault the full completeness oracle applies",
-		"the poll sleeps of the syncers are shortened to 2 ms through data/trie/verif_hooks.go (speed only)",
+		"the poll sleeps of the syncers are shortened to 2 ms through data/trie/verif_hooks.go (speed only); the syncers created inside SyncAccounts keep their production poll intervals (1 s / 100 ms)",
+		"overlapping StartSyncing calls on one instance are only issued to the double-list syncer, whose doc comment promises serialization; the first-version syncer writes rootHash/rootFound outside its lock and replaces its frontier per call, so only sequential re-use of an instance is exercised there",
+		"an error returned by SyncAccounts (reported write fault, time out) is a defined outcome: nothing is claimed about the storage then; in the accounts phase the context belongs to SyncAccounts, so at the virtual deadline the simulated network turns fair and prompt instead of cancelling",
 	)
 	r.MinShapes(r.N(20, 200))
 	nCases := r.N(40, 1000)
 
-	r.Parallel(nCases, func(c *vk.Case) {
+	// the later phases keep the case indices (and PRNG streams) of the classic phase unchanged
+	nShared := r.N(8, 120)    // several StartSyncing calls on ONE syncer instance (shared.go)
+	nAccounts := r.N(10, 120) // state sync through userAccountsSyncer (accounts.go)
+	nAcctTimeout := r.N(2, 8) // the same with a data trie the peers never serve (first-version syncer, wall-clock time out)
+
+	// the accounts cases mostly sleep (production poll intervals of 1 s / 100 ms): they are started first so that they
+	// overlap with the CPU-bound classic cases; the LOGICAL case index selects the PRNG stream
+	nSlow := nAccounts + nAcctTimeout
+	r.Parallel(nCases+nShared+nSlow, func(c0 *vk.Case) {
+		logical := c0.Idx - nSlow
+		if c0.Idx < nSlow {
+			logical = nCases + nShared + c0.Idx
+		}
+		c := &vk.Case{Idx: c0.Idx, Rng: r.Rng(logical), R: r}
+		switch {
+		case logical >= nCases+nShared+nAccounts:
+			accountsCase(r, c, true)
+			return
+		case logical >= nCases+nShared:
+			accountsCase(r, c, false)
+			return
+		case logical >= nCases:
+			sharedCase(r, c)
+			return
+		}
 		rng := c.Rng
 		var nLeaves int
 		switch x := rng.Intn(10); {
